@@ -4,9 +4,9 @@ CONSTANTS
   Mode = "edge"
   InBits = {8}
   OutBits = {4}
-  WVals <- W_edge
+  WVals <- W_edge_quick
   BVals <- B_edge
-  Targets <- T_edge_quick
+  Targets <- T_edge_w32
   ScaleBits = {32}
   ShiftPoss = {32}
   BigVals <- None1
